@@ -144,7 +144,16 @@ func runC14(r *Report, tier string) {
 		why := ""
 		for i, lbl := range c.want {
 			rt := P.terms.successResult(fn, i)
-			if rt == nil || !strings.Contains(rt.String(), fmt.Sprintf("($0, iface<int64>(%d))", lbl)) {
+			want := fmt.Sprintf("($0, iface<int64>(%d))", lbl)
+			// the lookup may sit in a small helper taking the label
+			for k := 0; k < 3 && rt != nil && !strings.Contains(rt.String(), want); k++ {
+				nt := P.terms.expand(rt, 1)
+				if nt.eq(rt) {
+					break
+				}
+				rt = nt
+			}
+			if rt == nil || !strings.Contains(rt.String(), want) {
 				why = fmt.Sprintf("result %d is %v, expected the parameter under label %d", i, rt, lbl)
 			}
 		}
